@@ -4,6 +4,7 @@ import (
 	"fmt"
 	"math/rand"
 	"sort"
+	"strings"
 
 	"github.com/acquirecloud/golibs/container/iterable"
 )
@@ -32,9 +33,9 @@ func init() {
 // an error from its own Reset (srcDesc.reset: the source is not a golibs.Reseter).
 type mixNoReset struct{ it iterable.Iterator[int] }
 
-func (n *mixNoReset) HasNext() bool    { return n.it.HasNext() }
+func (n *mixNoReset) HasNext() bool     { return n.it.HasNext() }
 func (n *mixNoReset) Next() (int, bool) { return n.it.Next() }
-func (n *mixNoReset) Close() error     { return n.it.Close() }
+func (n *mixNoReset) Close() error      { return n.it.Close() }
 
 var mixSelectors = map[string]iterable.SelectF[int]{
 	"lt":    func(a, b int) bool { return a < b },
@@ -72,6 +73,21 @@ func mixerBuild(s Step, variant string) (*iterable.Mixer[int], error) {
 		it1, it2 = in1, in2
 	}
 	m := &iterable.Mixer[int]{}
+	if strings.HasPrefix(variant, "reinit") {
+		// the Mixer value has been used before (pooled / embedded mixers are re-initialised): Init must
+		// start a fresh merge whatever state the previous one was left in
+		m.Init(mixSelectors["lt"], mixSource([]int{7, 9}, true), mixSource([]int{8}, true))
+		switch variant {
+		case "reinit-drained":
+			for m.HasNext() {
+				m.Next()
+			}
+		case "reinit-peeked":
+			m.HasNext()
+		case "reinit-mid":
+			m.Next()
+		}
+	}
 	m.Init(sf, it1, it2)
 	return m, nil
 }
@@ -304,8 +320,8 @@ func driveMixer(opt *Options) error {
 			return err
 		}
 		tw.Emit(newStep)
-		pHas := []int{0, 30, 50, 80}[rnd.Intn(4)]   // percent of HasNext calls
-		pReset := []int{0, 0, 1, 4}[rnd.Intn(4)]    // percent of Reset calls
+		pHas := []int{0, 30, 50, 80}[rnd.Intn(4)] // percent of HasNext calls
+		pReset := []int{0, 0, 1, 4}[rnd.Intn(4)]  // percent of Reset calls
 		for i := 0; i < steps; i++ {
 			op := "Next"
 			switch k := rnd.Intn(100); {
